@@ -977,6 +977,19 @@ theorem nsiBetweenness_eq_def (n : Nat) (a : Adj) (hsym : ∀ x y, a x y = a y x
     nsiBetweenness n a w isSrc targets = nsiBetweennessDef n a w (dist n a) isSrc targets :=
   nsiBetweenness_eq_def_full n a hsym w hw isSrc targets ht
 
+/-- **the kernel against the definition by enumeration**: under the hypotheses of `nsiBetweenness_eq_def`,
+entry `v` of `Network._nsi_betweenness` is
+`(1/w_v) Σ_{t ∈ targets, t ≠ v} w_t Σ_{s source, s ≠ v} w_s · (Σ_{p shortest t–s path, v ∈ p} Π_{x ∈ p} w_x) /
+(Σ_{p shortest t–s path} Π_{x ∈ p} w_x)` with both sums running over the explicitly enumerated shortest
+paths (`shortestPaths`) — no recursion on the right-hand side. -/
+theorem nsiBetweenness_eq_enumeration (n : Nat) (a : Adj) (hsym : ∀ x y, a x y = a y x) (w : Nat → Rat)
+    (hw : ∀ v, v < n → 0 < w v) (isSrc : List Bool) (targets : List Nat)
+    (ht : ∀ j, j ∈ targets → j < n) (v : Nat) (hv : v < n) :
+    (nsiBetweenness n a w isSrc targets).getD v 0
+      = nsiBetweennessEnum n a w (dist n a) isSrc targets v := by
+  rw [nsiBetweenness_eq_def n a hsym w hw isSrc targets ht]
+  exact nsiBetweennessDef_getD_enum n a w (dist n a) isSrc targets v hv
+
 end Betweenness
 
 /-! ### translator tie: the size expressions of the model are the ones in the current source
@@ -1084,6 +1097,11 @@ example : NetBetw.FwdOK 4 c4 w4 0 (NetBetw.offsetsOf (NetBetw.degArr 4 c4))
     (NetBetw.forward (NetBetw.offsetsOf (NetBetw.degArr 4 c4)) (NetBetw.degArr 4 c4) (NetBetw.flatArr 4 c4)
       w4 4 0 (NetBetw.fwdInit 4 w4 (NetBetw.flatArr 4 c4).length 0)) :=
   nsiBetweenness_forward_phase 4 c4 c4_symm w4 0 (by decide)
+example : (NetBetw.nsiBetweenness 4 c4 w4 [true, false, true, true] [3, 0, 3]).getD 1 0
+    = NetBetw.nsiBetweennessEnum 4 c4 w4 (dist 4 c4) [true, false, true, true] [3, 0, 3] 1 :=
+  nsiBetweenness_eq_enumeration 4 c4 c4_symm w4 w4_pos _ _ (by decide) 1 (by decide)
+example : (NetBetw.nsiBetweenness 4 c4 w4 [true, false, true, true] [3, 0, 3]).getD 1 0 ≠ 0 := by
+  decide +kernel
 example : (NetBetw.forward (NetBetw.offsetsOf (NetBetw.degArr 4 c4)) (NetBetw.degArr 4 c4)
       (NetBetw.flatArr 4 c4) w4 4 0 (NetBetw.fwdInit 4 w4 (NetBetw.flatArr 4 c4).length 0)).queue
     = [0, 1, 2, 3] := by decide +kernel
